@@ -1,6 +1,11 @@
 // Package utils provides shared utility functions used across the WTF application.
 package utils
 
+import (
+	"os"
+	"path/filepath"
+)
+
 // Min returns the minimum of two integers.
 func Min(a, b int) int {
 	if a < b {
@@ -15,4 +20,42 @@ func Max(a, b int) int {
 		return a
 	}
 	return b
+}
+
+// WriteFileAtomic replaces the file at path with data in one step: the data is
+// written to a temporary file in the same directory, which is then renamed over the
+// target. If the process dies or a write fails part-way (full disk, I/O error), the
+// target still holds its complete previous content; it never holds a truncated or
+// mixed one. The temporary file is removed on failure.
+func WriteFileAtomic(path string, data []byte, perm os.FileMode) error {
+	tmp, err := os.CreateTemp(filepath.Dir(path), filepath.Base(path)+".tmp-*")
+	if err != nil {
+		return err
+	}
+	tmpName := tmp.Name()
+
+	if _, err := tmp.Write(data); err != nil {
+		tmp.Close()
+		os.Remove(tmpName)
+		return err
+	}
+	if err := tmp.Chmod(perm); err != nil {
+		tmp.Close()
+		os.Remove(tmpName)
+		return err
+	}
+	if err := tmp.Sync(); err != nil {
+		tmp.Close()
+		os.Remove(tmpName)
+		return err
+	}
+	if err := tmp.Close(); err != nil {
+		os.Remove(tmpName)
+		return err
+	}
+	if err := os.Rename(tmpName, path); err != nil {
+		os.Remove(tmpName)
+		return err
+	}
+	return nil
 }
